@@ -29,3 +29,40 @@ Theorem C03_unsupported_per_entry : forall kdf ar i pw f ds s,
   by_index_opt kdf ar i pw = Err (EUnsupported MMethodNotSupported).
 Proof. exact unsupported_entry_error. Qed.
 Print Assumptions C03_unsupported_per_entry.
+
+(* ---------- layouts other than the writer's own.
+   (1) Data in front of the archive (self-extractor stubs, concatenated files): for ANY junk bytes, an archive
+   (entries ++ directory ++ plain end record) whose recorded offsets are relative to its own start is opened with
+   offset() = |junk| and every entry's header offset shifted by |junk|, provided the central records are written for
+   that shift (rendered_at) -- same two blind-spot hypotheses as C01_finish_then_open. *)
+From Coq Require Import ZArith.
+From ZipV Require Import Gen.CompressionGen Model.Writer Proofs.StreamProofs Proofs.Zip64Proofs Proofs.CentralRoundtrip Proofs.OpenRendered Proofs.OpenPrefixed Proofs.EntryRead.
+Theorem C03_prefixed_archive : forall junk front files css comment gs,
+  Forall2 (rendered_at (len junk)) files css ->
+  let dir := concat (map (@concat byte) css) in
+  let n := N.of_nat (length files) in
+  needs64 n (len dir) (len front) = false -> len comment <= 65535 ->
+  no_locator_before (junk ++ front ++ dir) ->
+  no_later_sig n (len dir) (len front) comment ->
+  decoded_list_at (len junk) files css (len junk + len front) gs ->
+  exists data, data = junk ++ front ++ dir ++ eocd_bytes n (len dir) (len front) comment /\
+    open data = Ok {| ar_data := data; ar_files := gs; ar_offset := len junk; ar_comment := comment |}.
+Proof. exact open_prefixed. Qed.
+Print Assumptions C03_prefixed_archive.
+
+(* (2) What the local header may say.  For a stored, unencrypted entry the reader takes NOTHING from the local header
+   but its signature and the two length fields: whatever version, flags (incl. the data-descriptor bit), time, CRC and
+   sizes (zeros, escapes, garbage) it carries, and whatever follows the payload (a data descriptor, a gap, the next
+   entry), opening the entry by index yields a reader that denotes the payload named by the CENTRAL record's offset
+   and size, checked against the central CRC.  This is how entries of streaming producers are read. *)
+Theorem C03_local_fields_irrelevant : forall kdf (blk mac : bytes -> bytes -> bytes) crc ar i g front lh name extra payload rest,
+  ar_data ar = front ++ lh ++ name ++ extra ++ payload ++ rest ->
+  nth_error (ar_files ar) (N.to_nat i) = Some g ->
+  f_encrypted g = false -> f_aes g = None -> f_method g = CompressionMethod_Stored ->
+  local_fixed_ok lh (len name) (len extra) -> len name <= 65535 -> len extra <= 65535 ->
+  f_header_start g = len front -> len front + 30 + len name + len extra < 2 ^ 64 ->
+  f_csize g = len payload -> f_crc g = crc payload ->
+  exists c, by_index_opt kdf ar i None = Ok (Some (g, len front + 30 + len name + len extra, c)) /\
+            plain_inv c /\ crc_den crc plain_den (make_stored g c) = Good payload.
+Proof. intros kdf blk mac. exact (stored_entry_denotes kdf blk mac). Qed.
+Print Assumptions C03_local_fields_irrelevant.
